@@ -9,6 +9,7 @@ import os
 import sys
 
 from ..model import call_name, own_nodes, unparse
+from ..model import self_assigns
 from ..pathcond import path_info
 from ..paths import enumerate_paths
 
@@ -113,16 +114,14 @@ def run(pm, ctx):
               cls.module.relpath, msg='the predicate production/action changed',
               key='C19-R1|pred')
     ctor = pm.func(H + '.FilterExprConjunction.__init__')
-    st = {unparse(n.targets[0]): unparse(n.value) for n in own_nodes(ctor.node)
-          if isinstance(n, ast.Assign)}
+    st = self_assigns(ctor.node)
     ctx.check('C19-R1', ctor.params[1:] == ['conj', 'lhs', 'rhs'] and st ==
               {'self.conj': 'conj', 'self.lhs': 'lhs', 'self.rhs': 'rhs'},
               'Conjunction stores (conj, lhs, rhs) under their own names', ctor.loc,
               msg='Conjunction constructor mixes its arguments: %s' % st,
               key='C19-R1|%s' % ctor.qualname)
     ctor = pm.func(H + '.FilterExprPredicate.__init__')
-    st = {unparse(n.targets[0]): unparse(n.value) for n in own_nodes(ctor.node)
-          if isinstance(n, ast.Assign)}
+    st = self_assigns(ctor.node)
     ctx.check('C19-R1', ctor.params[1:] == ['op', 'lhs', 'rhs'] and st ==
               {'self.op': 'op', 'self.lhs': 'lhs', 'self.rhs': 'rhs'},
               'Predicate stores (op, lhs, rhs) under their own names', ctor.loc,
